@@ -208,8 +208,13 @@ class CSSNamespaceRule(cssrule.CSSRule):
                                 self._valuestr(cssText))
 
             # set all
+            if wellformed and self._namespaceURI and \
+               self._namespaceURI != new['uri']:
+                wellformed = False
+                self._log.error('CSSNamespaceRule: namespaceURI is readonly.',
+                                error=xml.dom.NoModificationAllowedErr)
+
             if wellformed:
-                # may raise (the URI of an existing rule is readonly): first
                 self.namespaceURI = new['uri']
                 self.atkeyword = new['keyword']
                 self._prefix = new['prefix']
